@@ -33,6 +33,8 @@ def generate(seed, tier):
         ops.append({"op": "eval", "names": evs, "x": x, "t": t})
     if rng.random() < 0.3:
         ops.append({"op": "sym", "names": ["jac_eqn", "grad_eqn"]})
+    if rng.random() < 0.25 and params:
+        ops.extend(sc.grow_ops(S("sched"), model, names, params, sc.C03_EVALS, count=rng.choice([1, 2])))
     theta = [round(rng.uniform(0.05, 3.0), 4) for _ in params]
     return {"engine": "session", "model": model, "order": order, "env": {"K": kenv}, "theta": theta,
             "ops": ops, "batch": batch}
